@@ -6,7 +6,7 @@ import importlib
 
 META = {}
 _FAMS = {}
-_MODULES = ["c01", "c02", "c03", "c04", "c05", "c07", "c08", "c09", "c10", "c11", "c12", "c14", "c15", "c16", "c17", "c20"]
+_MODULES = ["c01", "c02", "c03", "c04", "c05", "c07", "c08", "c09", "c10", "c11", "c12", "c14", "c15", "c16", "c17", "c18", "c20"]
 _loaded = False
 
 
